@@ -145,6 +145,11 @@ class StlAstParserVisitor(LtlAstParserVisitor, StlParserVisitor):
     def visitInterval(self, ctx):
         begin, begin_unit = self.visit(ctx.intervalTime(0))
         end, end_unit = self.visit(ctx.intervalTime(1))
+        b_unit = begin_unit or end_unit or self.unit
+        e_unit = end_unit or begin_unit or self.unit
+        if begin < 0 or begin * self.U[b_unit] > end * self.U[e_unit]:
+            raise RTAMTException('The interval [{0}{1},{2}{3}] is not well formed: 0 <= begin <= end is required'.format(
+                begin, begin_unit, end, end_unit))
         interval = Interval(begin, end, begin_unit, end_unit)
         return interval
 
